@@ -257,8 +257,9 @@ def main(argv):
     if getattr(mod, 'EXHAUSTIVE_NOTE', None):
         evidence['coverage']['exhaustive_note'] = mod.EXHAUSTIVE_NOTE
     if replay_file is None:
-        os.makedirs(os.path.join(ROOT, 'evidence'), exist_ok=True)
-        with open(os.path.join(ROOT, 'evidence', f'{prop}.json'), 'w') as f:
+        evdir = os.environ.get('VERIF_EVIDENCE_DIR') or os.path.join(ROOT, 'evidence')
+        os.makedirs(evdir, exist_ok=True)
+        with open(os.path.join(evdir, f'{prop}.json'), 'w') as f:
             json.dump(evidence, f, indent=1, default=repr)
     for n, f in fam_out.items():
         print(
